@@ -746,6 +746,38 @@ async fn differential_inner(hseed: u64, r: &mut Rng, inst: &ServerInstance, rep:
 // -------------------------------------------------------------------------------------------------
 // 3. malformed frames
 
+/// Mirrors the server's framing of the byte stream of one hostile connection (4-byte little-endian length, then that many bytes) and
+/// zeroes the most significant byte of every length prefix, wherever in the stream it falls: the server allocates what a prefix announces
+/// before it reads on, and a stray prefix in the tail of a random frame must not announce gigabytes (see the assumptions of this check).
+#[derive(Default)]
+struct Framing {
+    owed: u64,
+    prefix: Vec<u8>,
+}
+
+impl Framing {
+    fn tame(&mut self, bytes: &mut [u8]) {
+        let mut i = 0;
+        while i < bytes.len() {
+            if self.owed > 0 {
+                let take = self.owed.min((bytes.len() - i) as u64);
+                i += take as usize;
+                self.owed -= take;
+                continue;
+            }
+            if self.prefix.len() == 3 {
+                bytes[i] = 0;
+            }
+            self.prefix.push(bytes[i]);
+            i += 1;
+            if self.prefix.len() == 4 {
+                self.owed = u32::from_le_bytes(self.prefix[..].try_into().unwrap()) as u64;
+                self.prefix.clear();
+            }
+        }
+    }
+}
+
 fn snapshot_val(streams: &[iggy::models::stream::Stream], users: usize) -> Value {
     let mut x: Vec<(u32, String, u32, u64)> = streams.iter().map(|s| (s.id, s.name.clone(), s.topics_count, s.messages_count)).collect();
     x.sort();
@@ -800,6 +832,7 @@ async fn hostile_inner(hseed: u64, r: &mut Rng, inst: &ServerInstance, rep: &mut
             timed("login", conn.login_user("nobody", "password-1234")).await?.map_err(|e| Stop::Inconclusive(e.to_string()))?;
         }
         let frames = if variant == "unauthenticated" { 40 } else { 20 };
+        let mut framing = Framing::default();
         for k in 0..frames {
             let (label, bytes): (&str, Vec<u8>) = match r.below(7) {
                 0 => {
@@ -864,6 +897,8 @@ async fn hostile_inner(hseed: u64, r: &mut Rng, inst: &ServerInstance, rep: &mut
                     ("unknown-code", f)
                 }
             };
+            let mut bytes = bytes;
+            framing.tame(&mut bytes);
             ops.push(format!("{variant}: frame #{k} {label} ({} bytes)", bytes.len()));
             rep.op(&format!("hostile_{label}"));
             let out = conn.send_garbage(&bytes, 80).await;
@@ -883,6 +918,7 @@ async fn hostile_inner(hseed: u64, r: &mut Rng, inst: &ServerInstance, rep: &mut
                 }
                 GarbageOutcome::Closed => {
                     rep.event("hostile_connection_closed");
+                    framing = Framing::default();
                     conn = RawClient::connect(inst.tcp_addr).await.map_err(Stop::Inconclusive)?;
                     if variant == "no-permissions" {
                         timed("login", conn.login_user("nobody", "password-1234")).await?.map_err(|e| Stop::Inconclusive(e.to_string()))?;
@@ -891,6 +927,7 @@ async fn hostile_inner(hseed: u64, r: &mut Rng, inst: &ServerInstance, rep: &mut
                 GarbageOutcome::NoReply => {
                     // the server is waiting for the rest of a frame whose prefix promised more: a hostile client just goes away
                     rep.event("hostile_frame_left_server_waiting");
+                    framing = Framing::default();
                     conn = RawClient::connect(inst.tcp_addr).await.map_err(Stop::Inconclusive)?;
                     if variant == "no-permissions" {
                         timed("login", conn.login_user("nobody", "password-1234")).await?.map_err(|e| Stop::Inconclusive(e.to_string()))?;
